@@ -10,8 +10,7 @@
 
    The patch is turned into a list of `damage` values and applied by the extracted `damaged`.
    crc32c is implemented here natively and handed to the model as its `crc` parameter;
-   partition_point is the count of leading smaller keys.  Output format as the harness (without the
-   backward walk and without the last key of metadata()). *)
+   partition_point is the count of leading smaller keys.  Output format as the harness. *)
 open Gen_damage
 
 let rec pos_of_int (i : int) : positive =
@@ -252,16 +251,20 @@ let run (line : string) : string =
             let (((setsum, small), big), size) = o.so_meta in
             let meta =
               match o.so_first with
-              | SOk k ->
-                  Printf.sprintf "meta:%s:-:%s:%s:%s:%s" (hex_of_ns k) (dec_of_n small) (dec_of_n big) (hex_of_ns setsum)
+              | SOk (k, z) ->
+                  Printf.sprintf "meta:%s:%s:%s:%s:%s:%s" (hex_of_ns k) (hex_of_ns z) (dec_of_n small) (dec_of_n big) (hex_of_ns setsum)
                     (dec_of_n size)
               | bad -> "meta!" ^ sres_bad bad
             in
             let es, w = o.so_walk in
             let a = acc_new verbose in
             List.iter (fun ((k, ts), v) -> acc_push a (show_entry k ts v)) es;
+            let es2, w2 = o.so_back in
+            let a2 = acc_new verbose in
+            List.iter (fun ((k, ts), v) -> acc_push a2 (show_entry k ts v)) es2;
             String.concat " "
-              ([ "open:ok"; meta; Printf.sprintf "fw:%s!%s" (acc_show a) (wend_str w) ] @ List.map get_str o.so_gets)
+              ([ "open:ok"; meta; Printf.sprintf "fw:%s!%s" (acc_show a) (wend_str w);
+                 Printf.sprintf "bw:%s!%s" (acc_show a2) (wend_str w2) ] @ List.map get_str o.so_gets)
         | bad -> "open!" ^ sres_bad bad
       end
   | [ cmd; id; patch ] when cmd = "blk" || cmd = "blkv" ->
@@ -277,10 +280,14 @@ let run (line : string) : string =
       in
       begin
         match block_case f queries with
-        | SOk ((es, w), gets) ->
+        | SOk (((es, w), (es2, w2)), gets) ->
             let a = acc_new verbose in
             List.iter (fun ((k, ts), v) -> acc_push a (show_entry k ts v)) es;
-            String.concat " " ([ "new:ok"; Printf.sprintf "fw:%s!%s" (acc_show a) (wend_str w) ] @ List.map get_str gets)
+            let a2 = acc_new verbose in
+            List.iter (fun ((k, ts), v) -> acc_push a2 (show_entry k ts v)) es2;
+            String.concat " "
+              ([ "new:ok"; Printf.sprintf "fw:%s!%s" (acc_show a) (wend_str w); Printf.sprintf "bw:%s!%s" (acc_show a2) (wend_str w2) ]
+               @ List.map get_str gets)
         | bad -> "new!" ^ sres_bad bad
       end
   | [ cmd; id; patch ] when cmd = "log" || cmd = "logv" ->
